@@ -226,8 +226,15 @@ pub struct Eval {
 
 /// Run the real DiffTool and all three oracles.
 pub fn eval(exps: Vec<Expectation>, qs: &[Q], output: &[u8], mt: &dyn Fn(usize, usize) -> bool) -> Eval {
+    eval_nl(exps, qs, output, mt, false)
+}
+
+/// `newline_invariant`: the rules of this case do not look at the line terminator (bits rule, regex), so the
+/// stream without its final line feed has the same match matrix and must get the same verdict
+pub fn eval_nl(exps: Vec<Expectation>, qs: &[Q], output: &[u8], mt: &dyn Fn(usize, usize) -> bool, newline_invariant: bool) -> Eval {
     let lines = split_lines(output);
     let m = lines.len();
+    let exps2 = exps.clone();
     let r = guarded(|| DiffTool::new(exps).diff(output));
     let mut fails = vec![];
     match r {
@@ -250,6 +257,29 @@ pub fn eval(exps: Vec<Expectation>, qs: &[Q], output: &[u8], mt: &dyn Fn(usize, 
             }
             if det(qs, mt, m) && mem && hd {
                 fails.push(("C03:false-failure".into(), "deterministic expectations describe the output but differences are reported".into()));
+            }
+            // the same judgement through `TestCase::validate` (what `scrut test` calls), on the stream as it is and
+            // without its final line feed (same lines for these rules, same verdict required)
+            let mut variants: Vec<(&str, Vec<u8>)> = vec![("as-is", output.to_vec())];
+            if newline_invariant && output.ends_with(b"\n") {
+                variants.push(("no-final-newline", output[..output.len() - 1].to_vec()));
+            }
+            for (name, bytes) in variants {
+                let tc = scrut::testcase::TestCase { title: String::new(), shell_expression: "x".into(), expectations: exps2.clone(), exit_code: None, line_number: 1, config: scrut::config::TestCaseConfig::default_markdown() };
+                let out = scrut::output::Output { stdout: bytes.clone().into(), stderr: vec![].into(), exit_code: scrut::output::ExitStatus::Code(0) };
+                match guarded(|| tc.validate(&out)) {
+                    Err(p) => fails.push(("C02:crash".to_string(), format!("TestCase::validate panicked ({name}): {p}"))),
+                    Ok(Ok(())) => {
+                        if !mem {
+                            fails.push(("C01:false-pass".into(), format!("TestCase::validate ({name}) accepts the stream although its lines are not in the language of the expectations")));
+                        }
+                    }
+                    Ok(Err(_)) => {
+                        if det(qs, mt, m) && mem {
+                            fails.push(("C03:false-failure".into(), format!("TestCase::validate ({name}) rejects a stream that deterministic expectations describe")));
+                        }
+                    }
+                }
             }
             Eval { impl_out: canon_diff(&d), fails, has_diff: Some(hd) }
         }
@@ -342,7 +372,7 @@ fn bits_case(mk: &ExpectationMaker, prop: &str, qs: &[Q], m: usize, bits: &str) 
         .map(|(i, q)| parse_cached(mk, format!("{} (bits{})", &bits[i * m..(i + 1) * m], q_suffix(*q))))
         .collect();
     let mtf = |i: usize, j: usize| bits.as_bytes()[i * m + j] == b'1';
-    let ev = eval(exps, qs, &output_for(m), &mtf);
+    let ev = eval_nl(exps, qs, &output_for(m), &mtf, true);
     CaseRec { op: op_line(qs, m, bits), nontrivial: nontrivial(qs, bits), tags: tags(qs, m, bits, &ev), impl_out: ev.impl_out, oracle_fail: filter_fails(prop, ev.fails) }
 }
 
@@ -364,7 +394,7 @@ fn regex_case(mk: &ExpectationMaker, prop: &str, qs: &[Q], m: usize, bits: &str)
         out.push(b'\n');
     }
     let mtf = |i: usize, j: usize| bits.as_bytes()[i * m + j] == b'1';
-    let ev = eval(exps, qs, &out, &mtf);
+    let ev = eval_nl(exps, qs, &out, &mtf, true);
     CaseRec { op: op_line(qs, m, bits), nontrivial: nontrivial(qs, bits), tags: vec!["realised=regex".into()], impl_out: ev.impl_out, oracle_fail: filter_fails(prop, ev.fails) }
 }
 
